@@ -20,7 +20,7 @@ RULE = (
     "of length >= 1 on a problem the compiler rewrote; distinct by (problem, compiler, plan)."
 )
 SHARDS = {"quick": 16, "thorough": 16}
-CASE_TIMEOUT_S = 30  # CPU seconds per case; DNF / powerset compilations that explode are inconclusive, not judged
+CASE_TIMEOUT_S = 12  # CPU seconds per case; DNF / powerset compilations that explode are inconclusive, not judged
 
 
 def guided(c, comp_ex, plan_steps, orig_states, ctx):
